@@ -294,8 +294,14 @@ func cmdCheck(args []string) int {
 	}
 	// thorough tier: replay recipes of this property on the real code (canaries / regressions)
 	var recipeLines []string
-	if *tier == "thorough" {
+	{
 		for _, rc := range loadRecipes(root) {
+			if *tier != "thorough" && !rc.Quick {
+				continue
+			}
+			if *repo != "/repo" && os.Getenv("GOVC_WORK_SUFFIX") == "" {
+				continue
+			}
 			has := false
 			for _, pr := range rc.Properties {
 				if pr == *prop {
